@@ -14,9 +14,32 @@ def run(tier, seed, work, st):
     sizes = [2000] if tier == "quick" else [2000, 8000]
     rows_all = []
     for n in sizes:
-        p = subprocess.run([t2.HARNESS, "cost", str(n)], stdout=subprocess.PIPE, stderr=subprocess.PIPE, text=True,
-                           env=dict(os.environ, GOGC="off" if n <= 2000 else "100"))
-        rows = json.loads(p.stdout)
+        # one JSON object per line: {"starting": family} before each family, then its row. A memory limit and a time limit
+        # keep a quadratic family from taking the machine down; the family being measured when the run died is reported.
+        try:
+            p = subprocess.run([t2.HARNESS, "cost", str(n)], stdout=subprocess.PIPE, stderr=subprocess.PIPE, text=True,
+                               env=dict(os.environ, GOGC="100", GOMEMLIMIT="6GiB"), timeout=1500)
+            out, rc = p.stdout, p.returncode
+        except subprocess.TimeoutExpired as e:
+            out, rc = (e.stdout.decode() if isinstance(e.stdout, bytes) else (e.stdout or "")), -9
+        rows, current = [], None
+        for line in out.split("\n"):
+            line = line.strip()
+            if not line.startswith("{"):
+                continue
+            try:
+                obj = json.loads(line)
+            except Exception:
+                continue
+            if "starting" in obj:
+                current = obj["starting"]
+            else:
+                rows.append(obj)
+                current = None
+        if rc != 0 or current is not None:
+            fails.append({"property": "C20", "class": "cost-run-died:" + str(current),
+                          "what": "the cost measurement was killed or timed out (exit %s) while measuring family %s at n=%d: memory or time blew up" % (rc, current, n),
+                          "case": json.dumps({"family": current, "n": n, "exit": rc}), "tokens": "vharness cost %d  # family %s" % (n, current)})
         rows_all += rows
         for r in rows:
             ratio = max(r["alloc_ratio"], r["mallocs_ratio"])
